@@ -166,6 +166,9 @@ func isByteSlice(t types.Type) bool {
 // across iterations of that loop.
 func (c *Ctx) checkHandedOverBuffers(rule string, rels ...string) {
 	L := c.L
+	if c.Thorough() {
+		rels = nil // thorough tier: every package of the module
+	}
 	L.Rule(rule, "AddSequenceChar keeps the slice it receives as the row's storage: a call inside a loop passes a buffer made in that iteration — never one created before the loop or carried from one iteration to the next, which would make several rows share one backing array")
 	nCalls := 0
 	reported := map[*ssa.Call]bool{}
